@@ -91,6 +91,7 @@ Proof.
       destruct (find j (works s)) as [[| | | |]|] eqn:Ef; try discriminate; destruct stage as [|[|?]]; try discriminate.
     all: try (destruct (has_term c); repeat match type of Hs with (match ?b with _ => _ end) = _ => destruct b eqn:?; try discriminate end; injection Hs as <-;
               (eapply (D_setw s _ _ _ j _ _ Ef); [reflexivity|reflexivity| |exact HD]); (apply Hdone; [reflexivity|lia]); fail).
+    all: destruct (tfe_blocked c s) eqn:Etb; [discriminate|].
     all: cbv zeta in Hs.
     all: set (s1 := set_works s (setw j WDone (works s))) in *.
     all: assert (D1 : DP s1 (t ++ [EDone 1 j err])) by ((eapply (D_setw s _ _ _ j _ _ Ef); [reflexivity|reflexivity| |exact HD]); (apply Hdone; [reflexivity|lia])).
@@ -159,6 +160,7 @@ Proof.
   - destruct (ph s); try discriminate; destruct (find j (works s)) as [[| | | |]|]; try discriminate; destruct stage as [|[|?]]; try discriminate.
     all: try (destruct (has_term c); repeat match type of Hs with (match ?b with _ => _ end) = _ => destruct b eqn:?; try discriminate end; injection Hs as <-; cbn;
               (split; [auto|intros; discriminate]); fail).
+    all: destruct (tfe_blocked c s) eqn:Etb; [discriminate|].
     all: cbv zeta in Hs.
     all: match type of Hs with (match ph ?S2 with _ => _ end) = _ => set (s2 := S2) in *; assert (C2 : calls s2 = calls s) by
            (unfold s2; destruct err; destruct (c_term c); try reflexivity; cbn; destruct (residual s); reflexivity) end.
